@@ -165,6 +165,14 @@ func (e *Engine) fileWrite(st *State, f fileState, at *Term, s *SliceV, g *Term,
 					continue
 				}
 				pos := Add(at, K)
+				if cands, ok := possibleConsts(pos); ok {
+					for _, q := range cands {
+						if q >= 0 && q < len(es) {
+							es[q] = Ite(And(wg, Eq(pos, BVu(uint64(q), 64))), b, es[q].(*Term))
+						}
+					}
+					continue
+				}
 				for q := range es {
 					c := And(wg, Eq(pos, BVu(uint64(q), 64)))
 					if !c.IsFalse() {
